@@ -3,11 +3,12 @@ use super::c02::snapshot;
 use super::searchlib::*;
 use crate::engine::search::PersistentState;
 use crate::framework::*;
+use crate::refchess::Pos;
 use proptest::strategy::Strategy;
 use serde::{Deserialize, Serialize};
 use serde_json::json;
 
-pub const RULE: &str = "case = (game, depth 8-11 under an infinite, a far-away fixed-move-time or a far-away clock time control, hash 1/2/3/16 MB, 0-2 earlier searches). The unstopped search is run once with hook H1 counting the polls of the stop flag -> N. Then for every k = 1..N (all k when N <= 24, else 1, 2, N-1, N and 12 generated indices (4 when N > 60)) the search is repeated from an identically prepared state with the flag made to read true from the k-th poll on. Oracle: no panic; the move returned is in the reference legal set; the total number of polls equals k (any node examined after the stop was observed would poll again); every line reported before the stop passes the C08 oracle; the Game passed in is unchanged; a follow-up search (unstopped, depth 3-5, same state, same or successor position) passes the complete C08 oracle and returns a legal move. A second family calls the real Control::stop() from another thread after a generated delay; a third ends the search by an expired fixed move time of 0-20 ms instead of a stop request. A 'first_iteration' part uses capture-storm positions (4-8 queens a side) at depth 1-2, where the first poll already falls inside the first iteration, with every k. Non-trivial = k strictly inside an iteration (not the between-iterations poll); distinct by (case, k).";
+pub const RULE: &str = "case = (game, depth 8-11 under an infinite, a far-away fixed-move-time or a far-away clock time control, hash 1/2/3/16 MB, 0-2 earlier searches). The unstopped search is run once with hook H1 counting the polls of the stop flag -> N. Then for every k = 1..N (all k when N <= 24, else 1, 2, N-1, N and 12 generated indices (4 when N > 60)) the search is repeated from an identically prepared state with the flag made to read true from the k-th poll on. Oracle: no panic; the move returned is in the reference legal set; the total number of polls equals k (any node examined after the stop was observed would poll again); every line reported before the stop passes the C08 oracle; the Game passed in is unchanged; the position at which the stop was observed (hook H3) is searched next on the same tables (depth 2 under 40 ms) and must give a legal move and legal lines without panic; a follow-up search (unstopped, depth 3-5, same state, same or successor position) passes the complete C08 oracle and returns a legal move. A second family calls the real Control::stop() from another thread after a generated delay; a third ends the search by an expired fixed move time of 0-20 ms instead of a stop request. A 'first_iteration' part uses capture-storm positions (4-8 queens a side) at depth 1-2, where the first poll already falls inside the first iteration, with every k. Non-trivial = k strictly inside an iteration (not the between-iterations poll); distinct by (case, k).";
 
 #[derive(Serialize, Deserialize, Clone, Debug)]
 pub enum Case {
@@ -79,6 +80,29 @@ fn from_tape(data: &[u16], tier: Tier) -> Option<(Built, Tape)> {
     Some((Built { hash_mb, priors, main, followup }, t))
 }
 
+/// The position at which the stop was observed is searched next, on the same tables: whatever the
+/// unwinding search left behind for exactly that position must still be usable.
+fn check_stop_position(stopped_at: &Option<String>, root: &Pos, state: &mut PersistentState, st: &mut Stats, what: &str) -> Result<(), Fail> {
+    let Some(fen) = stopped_at else { return Ok(()) };
+    let Ok(p) = Pos::from_fen(fen) else { return Ok(()) };
+    if p.validate().is_err() || p.legal_moves().is_empty() || p.to_fen() == root.to_fen() {
+        return Ok(());
+    }
+    st.class("search_of_the_position_where_the_stop_was_seen");
+    let g = crate::adapter::to_game(&p);
+    // bounded by time as well: the position may still be a capture storm
+    let limit = Limit::DepthUnderMoveTime { depth: 2, ms: 40 };
+    let out = run_search(&g, state, &limit, 0).map_err(|pm| Fail::new(&format!("stop_position_panic:{}", panic_signature(&pm)), format!("after {what}, a search of the position where the stop was seen ({fen}) on the same tables panicked: {pm}")))?;
+    if !legal_in(&p, out.best) {
+        return Err(Fail::new("stop_position:bestmove_illegal", format!("after {what}, a search of the position where the stop was seen ({fen}) on the same tables returned illegal {:?}", out.best)));
+    }
+    check_reports(&p, &out.infos, None, st).map_err(|mut f| {
+        f.signature = format!("stop_position:{}", f.signature);
+        f.msg = format!("after {what}, search of the position where the stop was seen ({fen}): {}", f.msg);
+        f
+    })
+}
+
 fn check_followup(b: &Built, state: &mut PersistentState, st: &mut Stats, what: &str) -> Result<(), Fail> {
     let Some((fpos, fgame)) = build(&b.followup) else { return Ok(()) };
     if fpos.legal_moves().is_empty() {
@@ -112,6 +136,7 @@ fn run_built(b: &Built, ks_explicit: Option<&[u64]>, delays: Option<&[u64]>, mut
             return Err(Fail::new("stopped:bestmove_illegal", format!("search at {} with movetime {ms} returned illegal {:?}", pos.to_fen(), out.best)));
         }
         check_reports(&pos, &out.infos, None, st)?;
+        check_stop_position(&out.stopped_at, &pos, &mut state, st, &format!("a search ended by movetime {ms}"))?;
         return check_followup(b, &mut state, st, &format!("a search ended by movetime {ms}"));
     }
     let depth = match b.main.limit {
@@ -186,6 +211,7 @@ fn run_built(b: &Built, ks_explicit: Option<&[u64]>, delays: Option<&[u64]>, mut
         if snapshot(&game) != before {
             return Err(Fail::new("stopped:game_modified", format!("the game passed to the stopped search (poll {k}) was modified")).explicit(exk()));
         }
+        check_stop_position(&out.stopped_at, &pos, &mut state, st, &format!("a stop at poll {k}/{n} of {} depth {depth}", pos.to_fen())).map_err(|f| f.explicit(exk()))?;
         check_followup(b, &mut state, st, &format!("a stop at poll {k}/{n} of {} depth {depth}", pos.to_fen())).map_err(|f| f.explicit(exk()))?;
     }
     // real stop flag from another thread
@@ -207,6 +233,7 @@ fn run_built(b: &Built, ks_explicit: Option<&[u64]>, delays: Option<&[u64]>, mut
             return Err(Fail::new("stopped:bestmove_illegal", format!("search at {} stopped by Control::stop() after {d} us returned illegal {:?}", pos.to_fen(), out.best)).explicit(exd()));
         }
         check_reports(&pos, &out.infos, Some(depth), st).map_err(|f| f.explicit(exd()))?;
+        check_stop_position(&out.stopped_at, &pos, &mut state, st, &format!("Control::stop() after {d} us")).map_err(|f| f.explicit(exd()))?;
         check_followup(b, &mut state, st, &format!("Control::stop() after {d} us")).map_err(|f| f.explicit(exd()))?;
     }
     // an expired limit instead of a stop request: tiny fixed move times end the search at whatever
@@ -225,6 +252,7 @@ fn run_built(b: &Built, ks_explicit: Option<&[u64]>, delays: Option<&[u64]>, mut
                 return Err(Fail::new("stopped:bestmove_illegal", format!("search at {} with movetime {ms} returned illegal {:?}", pos.to_fen(), out.best)).explicit(exm()));
             }
             check_reports(&pos, &out.infos, None, st).map_err(|f| f.explicit(exm()))?;
+            check_stop_position(&out.stopped_at, &pos, &mut state, st, &format!("a search ended by movetime {ms}")).map_err(|f| f.explicit(exm()))?;
             check_followup(b, &mut state, st, &format!("a search ended by movetime {ms}")).map_err(|f| f.explicit(exm()))?;
         }
     }
